@@ -12,6 +12,7 @@ using bodies::Harness;
 using bodies::Obs;
 
 static void one_round(const Harness& h, int k, const std::vector<Obs>& seq_small, hz::Result& r, const std::string& prop) {
+  bodies::apply_env(h);
   cctz::time_zone::Impl::ClearTimeZoneMapTestOnly();
   bodies::world().reset_exec(k);
   for (auto& n : h.preload) { cctz::time_zone tz; cctz::load_time_zone(n, &tz); }
@@ -51,6 +52,7 @@ int main(int argc, char** argv) {
     const Harness& h = hs[ctl.shard];
     hz::begin_case(ctl.shard, "tsan " + h.id);
     // sequential reference
+    bodies::apply_env(h);
     cctz::time_zone::Impl::ClearTimeZoneMapTestOnly();
     bodies::world().reset_exec(h.threads.size());
     for (auto& n : h.preload) { cctz::time_zone tz; cctz::load_time_zone(n, &tz); }
